@@ -30,26 +30,33 @@ Permitted(allow, c) == CASE allow = "all"     -> TRUE
 (* loaded when the namespace is needed (at build time, or later when validation meets an      *)
 (* element of that namespace under a wildcard).                                               *)
 Mechanisms == {"include", "import", "redefine", "override", "hint", "mapper", "locations"}
-Spellings  == {"relative", "dotted", "absolute", "fileurl", "encoded"}
+(* "climbabs" / "climburl" / "climbenc": an ABSOLUTE path / file URL / file URL with percent-encoded dots that    *)
+(* starts inside the sandbox directory and leaves it (or stays in it) through ".." segments: the class of a        *)
+(* location is that of the file it finally names, whatever the spelling                                          *)
+Spellings  == {"relative", "dotted", "absolute", "fileurl", "encoded", "climbabs", "climburl", "climbenc"}
 
 VARIABLES allow, main, refs, opened, blocked, loaded, step
 avars == <<allow, main, refs, opened, blocked, loaded, step>>
 
-(* a load: the main document (always inside the sandbox directory here, or remote) *)
+(* a load: the main document (always inside the sandbox directory here, or remote; "textremote": the main     *)
+(* schema is supplied as TEXT together with a remote base URL - nothing is fetched for it, but its relative   *)
+(* references are remote)                                                                                    *)
 (* references one target: [mech, class, spelling]                                  *)
 AInit == /\ allow \in Allows
-         /\ main \in {"inside", "remote"}
+         /\ main \in {"inside", "remote", "textremote"}
          /\ refs \in [mech : Mechanisms, class : Classes, spelling : Spellings]
          /\ opened = {} /\ blocked = {} /\ loaded = {} /\ step = "main"
 FetchMain == /\ step = "main"
-             /\ IF Permitted(allow, main)
+             /\ IF main = "textremote"
+                  THEN loaded' = {"main"} /\ step' = "ref" /\ UNCHANGED <<opened, blocked>>
+                ELSE IF Permitted(allow, main)
                   THEN opened' = opened \cup {<<"main", main>>} /\ loaded' = {"main"} /\ step' = "ref"
                        /\ UNCHANGED blocked
                   ELSE blocked' = blocked \cup {<<"main", main>>} /\ step' = "done"
                        /\ UNCHANGED <<opened, loaded>>
              /\ UNCHANGED <<allow, main, refs>>
 FetchRef == /\ step = "ref"
-            /\ IF Permitted(allow, refs.class)
+            /\ IF Permitted(allow, refs.class) /\ ~(allow = "sandbox" /\ main = "textremote")
                  THEN opened' = opened \cup {<<"ref", refs.class>>} /\ loaded' = loaded \cup {"ref"}
                       /\ UNCHANGED blocked
                  ELSE blocked' = blocked \cup {<<"ref", refs.class>>} /\ UNCHANGED <<opened, loaded>>
@@ -58,6 +65,9 @@ FetchRef == /\ step = "ref"
 ANext == FetchMain \/ FetchRef
 ASpec == AInit /\ [][ANext]_avars
 
+(* a sandbox is a LOCAL directory: with a remote base URL it admits nothing (remote locations are never *)
+(* permitted in sandbox mode, local ones are outside the base)                                        *)
+SandboxRemoteBaseOpensNothing == (allow = "sandbox" /\ main = "textremote") => opened = {}
 OnlyPermittedOpened == \A o \in opened : Permitted(allow, o[2])
 BlockedNotLoaded == \A b \in blocked : b[1] \notin loaded
 NothingWithNone == allow = "none" => opened = {}
